@@ -15,6 +15,7 @@ def P(name, pkg, race=False, run=None, quick=1500, thorough=14400, tiers=None, a
     return d
 
 PROPS = {
+    "C19": {"level": "exploration", "parts": [P("main", "c19", run="^TestC19$")]},
     "C12": {"level": "exploration", "parts": [P("main", "c12", run="^TestC12$")]},
     "C18": {"level": "exploration", "parts": [P("main", "c18", run="^TestC18$"), P("race", "c18", race=True, run="^TestC18Race$")]},
     "C17": {"level": "exploration", "parts": [P("step", "c17", run="^TestC17$"), P("race", "c17", race=True, run="^TestC17Race$")]},
